@@ -26,6 +26,10 @@ impl Harness for C15 {
             u - 0.5
         }
     }
+    fn max_paths(&self) -> usize {
+        // the unchanged code has 3 paths; a change that branches on matrix entries must not exhaust memory
+        256
+    }
     fn timeout_s(&self, tier: Tier) -> u32 {
         match tier {
             Tier::Quick => 60,
